@@ -135,8 +135,15 @@ func (core *JApiCore) compileUserTypeWithAllDependencies(name string) error {
 		// The error can be found in another user type used by this one, in that
 		// case its index is related to the body of that type.
 		var e kit.Error
-		if stdErrors.As(err, &e) && e.IncorrectUserType() != "" && dd.Has(e.IncorrectUserType()) {
-			return jschemaToJAPIError(err, dd.GetValue(e.IncorrectUserType()))
+		if stdErrors.As(err, &e) {
+			switch {
+			case e.IncorrectUserType() != "" && dd.Has(e.IncorrectUserType()):
+				return jschemaToJAPIError(err, dd.GetValue(e.IncorrectUserType()))
+			case e.IncorrectUserType() != "" && dd.Has(e.Filename()):
+				// The error is found in an unnamed type (i.e. `@a | @b`), the schema
+				// library reports the user type containing it as the file name.
+				return jschemaToJAPIError(err, dd.GetValue(e.Filename()))
+			}
 		}
 		return jschemaToJAPIError(err, dd.GetValue(name))
 	}
